@@ -68,6 +68,10 @@ func Load(repo, harnessDir string, pkgDirs []string) (*Loaded, error) {
 			p := strings.Replace(string(prelude), "package PKG", "package "+pkgName, 1)
 			overlay[filepath.Join(repo, d, "zz_verif_prelude.go")] = []byte(p)
 		}
+		if d == "p9" && pkgName != "" {
+			src, _ := genConnCtor(repo)
+			overlay[filepath.Join(repo, d, "zz_verif_gen_conn.go")] = []byte(src)
+		}
 	}
 	cfg := &packages.Config{
 		Mode:    packages.LoadAllSyntax,
